@@ -279,6 +279,24 @@ class Repo:
             n for n in self.class_table if "::" not in n and "#" not in n and self.is_subclass(n, base)
         )
 
+    def class_const(self, cname: str, attr: str) -> tuple[bool, object]:
+        """A class-level ``attr = <literal>`` found through the MRO (the first class that binds the name decides):
+        (True, value), or (False, None) when no class binds it or the value is not a literal."""
+        for c in self.mro(cname):
+            ent = self.class_table.get(c)
+            if not ent:
+                continue
+            for n in ent[1].body:
+                tgt = n.targets[0] if isinstance(n, ast.Assign) and len(n.targets) == 1 else n.target if isinstance(n, ast.AnnAssign) and n.value is not None else None
+                if isinstance(tgt, ast.Name) and tgt.id == attr:
+                    try:
+                        return True, const_eval(n.value, self.mod(ent[0]).constants())  # type: ignore[arg-type]
+                    except ValueError:
+                        return False, None
+                if isinstance(n, ast.FunctionDef) and n.name == attr:
+                    return False, None
+        return False, None
+
     def resolve_method(self, cname: str, fname: str) -> tuple[str, str, ast.FunctionDef] | None:
         """MRO lookup: returns (file, defining class, node)."""
         for c in self.mro(cname):
